@@ -12,8 +12,10 @@ def main():
         ok, out = vlib.build()
         if not ok: print("build failed", out); return 2
         if rp.get("kind") == "failing-input" and hasattr(mod, "oracle_case"):
-            res = mod.oracle_case(rp["case"]); bad = bool(res)
-            for sig, detail in res: print("still fails: %s: %s" % (sig, detail[:300]))
+            res = mod.oracle_case(rp["case"]); bad = False
+            for sig, detail in res:
+                if ctx.fail(sig, rp["case"], detail): bad = True; print("still fails: %s: %s" % (sig, detail[:300]))
+                else: print("KNOWN-FINDING: property=%s %s" % (prop, detail[:300]))
         elif hasattr(mod, "replay"): bad = mod.replay(ctx, rp)
         else:
             mod.check(ctx); bad = bool(ctx.failures or ctx.disagreements)
